@@ -8,6 +8,7 @@ TITLE = "Configurations are either rejected with ValueError or fully honoured"
 RULES = {
     "C14.R1": "validation matrix: every non-raising path of each quantization entry point has passed the guard that rejects the unsupported configuration",
     "C14.R2": "configuration rejections raise ValueError (not assert, TypeError, ...)",
+    "C14.R5": "an accepted configuration is fully honoured: the tensor returned satisfies the pipeline / geometry / range rules of C01.R1, C01.R5, C02.R1, C02.R2, C03.R1, C03.R2, C03.R5 and C06.R7 (re-checked here under this id)",
     "C14.R3": "group-size post-condition: a non-None weight_group_size is only produced under in_features % group_size == 0, with in_features = weight.numel() // weight.shape[0]; the selection is repeated wherever weight_qtype is reassigned (the configuration in force is the one honoured)",
     "C14.R4": "qtypes given by name are looked up in `qtypes` for both weights and activations",
 }
@@ -159,6 +160,14 @@ def run(chk):
     from . import c02
     c02.requested_config(chk, "C14.R1")
     group_size_rule(chk)
+    from ..report import AliasedCheck
+    from . import c01, c02, c03, c06
+    c01.run(AliasedCheck(chk, {"C01.R1": "C14.R5", "C01.R5": "C14.R5"}))
+    c02.run(AliasedCheck(chk, {"C02.R1": "C14.R5", "C02.R2": "C14.R5"}))
+    c03.run(AliasedCheck(chk, {"C03.R1": "C14.R5", "C03.R2": "C14.R5", "C03.R5": "C14.R5"}))
+    c06.quantizer_geometry(AliasedCheck(chk, {"C06.R7": "C14.R5"}))
+    from .c03 import grouping_condition
+    grouping_condition(chk, "C14.R1")  # a valid group size is honoured by the optimizer and the quantizer alike
     from .c10 import derived_state
     derived_state(chk, rule="C14.R3")  # the selected group size follows every reassignment of the weight qtype
     qtype_by_name(chk)
